@@ -176,6 +176,7 @@ impl FileSystem for FaultFs {
         self.inner.remove_dir(path)
     }
     fn remove_dir_all(&self, path: &Path) -> Result<()> {
+        gate(&self.ctl, "remove_dir_all", path)?;
         self.inner.remove_dir_all(path)
     }
     fn get_file_size(&self, path: &Path) -> Result<u64> {
